@@ -64,7 +64,7 @@ Print Assumptions successful_visits_are_fresh.
     built on its own; then c is built -- c must execute (run IDs differ although a's environment is unchanged) *)
 Example partial_build_example :
   let pr := [(1, Fn [] [10] [100] 1 7 false); (3, Fn [1] [] [101] 3 9 false); (10, Src 50)] in
-  let c := mkCfg false false [] false [] [] in
+  let c := mkCfg false false [] false [] [] [] in
   let h := [OSetProj pr; OSetFile 50 (Some (CLit 1)); OBuild c 3; OSetFile 50 (Some (CLit 2)); OBuild c 1] in
   let o := build c (run_history h) 3 in
   o_ran o = [3] /\ forallb (fun lv => result_ok (v_res (snd lv))) (o_vis o) = true /\
